@@ -240,6 +240,21 @@ def crashRecover (s : St K V) (j n : Nat) : St K V :=
                  hist := s.hist.take (s.nEnacted + kept.length),
                  nEnacted := s.nEnacted + kept.length }
 
+/-- An I/O error in a pipeline step (`store_err`): the background error is recorded, the
+    workers stop (no further stage step happens), commits are refused from now on.  If the
+    failing step was enacting the oldest flushed record, `j` of its writes had reached the
+    tables.  (A failing `process_commits` has published nothing: the commit it had popped
+    stays in the commit overlay, which is all a reader can see of the queue.) -/
+def failStep (s : St K V) (j : Nat) : St K V :=
+  { s with bgErr := true,
+           tables := match s.flushed, s.logged with
+                     | _ + 1, r :: _ => applyRecPrefix j s.tables r
+                     | _, _ => s.tables }
+
+/-- Drop with an error present enacts nothing (`kill_logs`); the next open replays every
+    record that reached the log files. -/
+def reopenAfterError (s : St K V) : St K V := crashRecover s 0 s.logged.length
+
 inductive Action (K V : Type) where
   | commit (tx : List (Op K V))
   | process
